@@ -391,6 +391,12 @@ def filter_mc_sharemem(filename, step_size, box_size, cores, shape,
             logging.error("Caught keyboard interrupt")
             pool.close()
             exit = True
+        except Exception:
+            # a stripe failed: stop the pool, an abandoned pool can hang the
+            # interpreter on finalization
+            pool.terminate()
+            pool.join()
+            raise
         else:
             pool.close()
             pool.join()
